@@ -47,7 +47,7 @@ S_<TN_, TA_, EmptyT<TA_>>::wrapUtility(Control& HFSM2_IF_LOG_STATE_METHOD(contro
 	HFSM2_LOG_STATE_METHOD(&Empty::utility,
 						   Method::UTILITY);
 
-	return Utility{};
+	return Utility{1};
 }
 
 #endif
@@ -331,7 +331,7 @@ typename S_<TN_, TA_, EmptyT<TA_>>::UP
 S_<TN_, TA_, EmptyT<TA_>>::deepReportChange(Control& control) noexcept {
 	const Parent parent = stateParent(control);
 
-	return {Utility{}, parent.prong};
+	return {Utility{1}, parent.prong};
 }
 
 // - - - - - - - - - - - - - - - - - - - - - - - - - - - - - - - - - - - - - - -
@@ -342,7 +342,7 @@ typename S_<TN_, TA_, EmptyT<TA_>>::UP
 S_<TN_, TA_, EmptyT<TA_>>::deepReportUtilize(Control& control) noexcept {
 	const Parent parent  = stateParent(control);
 
-	return {Utility{}, parent.prong};
+	return {Utility{1}, parent.prong};
 }
 
 // - - - - - - - - - - - - - - - - - - - - - - - - - - - - - - - - - - - - - - -
@@ -360,7 +360,7 @@ template <typename TN_, typename TA_>
 HFSM2_CONSTEXPR(14)
 typename S_<TN_, TA_, EmptyT<TA_>>::Utility
 S_<TN_, TA_, EmptyT<TA_>>::deepReportRandomize(Control& HFSM2_UNUSED(control)) noexcept {
-	return Utility{};
+	return Utility{1};
 }
 
 #endif
